@@ -16,7 +16,7 @@ byte-slice reader over `content root` returns — bytes, counts, returned offset
 the one `io.Reader` gives: a zero-length read may answer nil or EOF, EOF only at or past the end (`agrees`). -/
 theorem c09_refines (root : FNode) (hws : wellSized root = true) (ops : List Op) :
     Spec.runAgrees ⟨content root, 0⟩ ops ((newReader root).run ops) :=
-  run_agrees root hws ops (newReader root) 0 (inv_new root)
+  run_agrees root ops (newReader root) 0 (fun _ _ _ => hws) (inv_new root) rfl
 
 /-- … and literally the same outputs when no read has an empty buffer. -/
 theorem c09_refines_eq (root : FNode) (hws : wellSized root = true) (ops : List Op)
@@ -24,16 +24,38 @@ theorem c09_refines_eq (root : FNode) (hws : wellSized root = true) (ops : List 
     (newReader root).run ops = Spec.run ⟨content root, 0⟩ ops :=
   runAgrees_eq ops _ _ hz (c09_refines root hws ops)
 
+/-- Sequential access needs no size information at all: on ANY tree (wrong block sizes, legacy internal nodes whose
+recorded file size also counts inline Data that the reader skips, …) every sequence of reads and WriteTo — under any
+fetch failures — delivers `content root` like the byte-slice reader. Only `Seek`/`Size` depend on `wellSized`. -/
+theorem c09_sequential_any_tree (root : FNode) (fails : List Bool) (ops : List Op)
+    (hns : ∀ op ∈ ops, op.isSeek = false) :
+    Spec.runAgreesF ⟨content root, 0⟩ ops ((newReaderF root fails).run ops) :=
+  run_agreesF root ops (newReaderF root fails) 0 (fun op ho hs => by rw [hns op ho] at hs; cases hs)
+    (by simp [Inv, newReaderF, framesOk, remDown])
+
 /-- `Size()` is the length of the content. -/
 theorem c09_size (root : FNode) (hws : wellSized root = true) : (newReader root).size = (content root).length := by
   simp [newReader, size_eq_of_wellSized root hws]
 
-/-- The walks never run out of fuel and the abstraction invariant holds in every reachable state: after any
-operation sequence the bytes still to be delivered (`cur` followed by what the walker has not visited) are exactly
-`content.drop offset`. -/
+/-- The walks never run out of fuel and the abstraction invariant holds in every reachable state, whatever fetches
+fail: after any operation the bytes still to be delivered (`cur` followed by what the walker has not visited) are
+exactly `content.drop pos` for the position the (possibly faulty) outcome defines. -/
 theorem c09_invariant (root : FNode) (hws : wellSized root = true) (r : Reader) (pos : Nat) (h : Inv root r pos)
-    (op : Op) : Inv root (r.step op).1 (Spec.step ⟨content root, pos⟩ op).1.pos :=
-  (step_ok root hws r pos h op).2.1
+    (op : Op) :
+    Inv root (r.step op).1 (Spec.step ⟨content root, pos⟩ op).1.pos ∨
+    ∃ s', faulty op ⟨content root, pos⟩ (r.step op).2 s' ∧ Inv root (r.step op).1 s'.pos := by
+  rcases (step_okF root r pos h op (fun _ => hws)).1 with ⟨_, hi⟩ | ⟨s', hf, _, hi⟩
+  · exact Or.inl hi
+  · exact Or.inr ⟨s', hf, hi⟩
+
+/-- Fault tolerance (fetch errors, cancelled contexts: ANY pattern of failing `FetchChild` calls, given by the oracle
+`fails`): every call either answers like the byte-slice reader, or reports an error with a `faulty` outcome — a
+read/WriteTo delivered a correct (possibly shorter) prefix and the position advanced by exactly that much; a failed
+seek left the reader at the start of the file (this is the `fix:` commit: before it the walker stayed where the
+search had stopped while the offset said 0) — and the run continues consistently from there. -/
+theorem c09_refines_faulty (root : FNode) (hws : wellSized root = true) (fails : List Bool) (ops : List Op) :
+    Spec.runAgreesF ⟨content root, 0⟩ ops ((newReaderF root fails).run ops) :=
+  run_agreesF root ops (newReaderF root fails) 0 (fun _ _ _ => hws) (by simp [Inv, newReaderF, framesOk, remDown])
 
 /-- `wellSized` is necessary: with one wrong recorded block size a seek lands on the wrong byte
 (this is why C07/C08/C10 prove `wellSized` of everything they build). -/
@@ -46,10 +68,20 @@ theorem c09_seek_needs_sizes :
 
 example : wellSized exTree = true := by decide
 example : content exTree = [1, 2, 3, 4, 5, 6, 7] := by decide
+/-- int64 overflow: from MaxInt64, `Seek(1, SeekCurrent)` wraps to a negative target and is rejected, exactly as
+a byte-slice reader computing in int64 -/
+example : (newReader exTree).run [.seek 9223372036854775807 0, .seek 1 1, .read 1, .seek 9223372036854775807 2] =
+    [⟨[], 9223372036854775807, .nil⟩, ⟨[], 9223372036854775807, .err⟩, ⟨[], 0, .eof⟩, ⟨[], 9223372036854775807, .err⟩] := by
+  decide
 example : (newReader exTree).run [.read 2, .read 0, .seek (-3) 2, .read 2, .seek 1 1, .writeTo, .read 1, .seek 9 0,
       .read 1, .seek (-1) 0, .seek 0 5, .seek (-2) 1, .read 9] =
     [⟨[1, 2], 2, .nil⟩, ⟨[], 0, .nil⟩, ⟨[], 4, .nil⟩, ⟨[5, 6], 2, .nil⟩, ⟨[], 7, .nil⟩, ⟨[], 0, .nil⟩,
      ⟨[], 0, .eof⟩, ⟨[], 9, .nil⟩, ⟨[], 0, .eof⟩, ⟨[], 9, .err⟩, ⟨[], 0, .err⟩, ⟨[], 7, .nil⟩, ⟨[], 0, .eof⟩] := by
   decide
+/-- the 4th fetch fails: the read returns the 2 bytes it has with an error, the next read resumes at byte 2;
+then the 9th fetch fails inside a seek: error, and the reader is back at offset 0 -/
+example : (newReaderF exTree [false, false, false, true, false, false, false, false, true]).run
+      [.read 5, .read 2, .seek 5 0, .read 2] =
+    [⟨[1, 2], 2, .err⟩, ⟨[3, 4], 2, .nil⟩, ⟨[], 0, .err⟩, ⟨[1, 2], 2, .nil⟩] := by decide
 
 end C09
